@@ -255,3 +255,12 @@ Print Assumptions interval_cast_strict_safe.
 Theorem lossless_inverse_duration_interval : forall u v w, dur_to_mdn u v = Some w -> mdn_to_dur u w = Some v.
 Proof. exact dur_mdn_roundtrip. Qed.
 Print Assumptions lossless_inverse_duration_interval.
+
+(* text form of the time part of Interval(DayTime) / Interval(MonthDayNano) (MillisecondsFormatter /
+   NanosecondsFormatter): the printed hours, mins, secs and sub-second fields recompose to the count and
+   every lower field stays below its carry bound (|mins| < 60, |secs| < 60, |sub| < units per second) *)
+Theorem interval_text_fields_exact : forall U v, 0 < U ->
+  v = ((hms_hours U v * 60 + hms_mins U v) * 60 + hms_secs U v) * U + hms_sub U v
+  /\ Z.abs (hms_mins U v) < 60 /\ Z.abs (hms_secs U v) < 60 /\ Z.abs (hms_sub U v) < U.
+Proof. exact hms_decomposition. Qed.
+Print Assumptions interval_text_fields_exact.
